@@ -201,16 +201,16 @@ C03Swap(pre, e, post) ==
       p1    == post.pool[p].sqrtPrice
       lim   == IF a.limit \doteq 0 THEN (IF a.aToB THEN MinSqrtPrice ELSE MaxSqrtPrice) ELSE a.limit
       used  == IF a.exactIn THEN paid ELSE got
-  IN /\ a.exactIn => paid \preceq a.amount
-     /\ ~a.exactIn => got \preceq a.amount
-     /\ IF a.aToB THEN p1 \preceq p0 ELSE p0 \preceq p1
-     /\ MinSqrtPrice \preceq p1 /\ p1 \preceq MaxSqrtPrice
-     /\ IF a.aToB THEN lim \preceq p1 ELSE p1 \preceq lim
-     /\ used \prec a.amount => p1 \doteq lim
-     /\ (~a.exactIn /\ a.limit \doteq 0) => got \doteq a.amount
-     /\ a.exactIn => a.threshold \preceq got
-     /\ ~a.exactIn => paid \preceq a.threshold
-     /\ 0 \prec a.amount
+  IN /\ Sub("input_bound", a.exactIn => paid \preceq a.amount)
+     /\ Sub("output_bound", ~a.exactIn => got \preceq a.amount)
+     /\ Sub("direction", IF a.aToB THEN p1 \preceq p0 ELSE p0 \preceq p1)
+     /\ Sub("protocol_price_bounds", MinSqrtPrice \preceq p1 /\ p1 \preceq MaxSqrtPrice)
+     /\ Sub("not_beyond_limit", IF a.aToB THEN lim \preceq p1 ELSE p1 \preceq lim)
+     /\ Sub("less_only_at_limit", used \prec a.amount => p1 \doteq lim)
+     /\ Sub("exact_out_without_limit_is_full", (~a.exactIn /\ a.limit \doteq 0) => got \doteq a.amount)
+     /\ Sub("minimum_output", a.exactIn => a.threshold \preceq got)
+     /\ Sub("maximum_input", ~a.exactIn => paid \preceq a.threshold)
+     /\ Sub("positive_amount", 0 \prec a.amount)
 
 -----------------------------------------------------------------------------
 (* C08: liquidity <-> token amounts at instruction level (no transfer fee) *)
